@@ -36,7 +36,7 @@ class _StubAgent:
 class UcsWorld:
     def __init__(self, D):
         self.D = D
-        self.rep, self.done, self.exc = {}, {}, []
+        self.rep, self.done, self.exc, self.accepts = {}, {}, [], []
         self.chan = collections.defaultdict(list)
         self.started = set()
         algo = AlgorithmDef.build_with_default_param("dsa", {}, mode="min")
@@ -56,6 +56,12 @@ class UcsWorld:
             for c in D["order"][a]:
                 r.add_computation(ComputationDef(ComputationNode(c, neighbors=list(D["cnbr"][c])), algo), D["fp"][c])
             self.done[a] = False
+            orig = r._accept_replica
+
+            def acc(origin, comp_def, footprint, _o=orig, _r=r, _a=a):
+                self.accepts.append({"a": _a, "c": comp_def.name, "held": sorted(_r._hosted_replicas)})
+                return _o(origin, comp_def, footprint)
+            r._accept_replica = acc
             r.replication_done = (lambda hosts, _a=a: self.done.__setitem__(_a, True))
             self.rep[a] = r
 
@@ -76,6 +82,28 @@ class UcsWorld:
                 self.rep[st[2]].on_message("_replication_" + st[1], m, 0)
         except Exception as e:    # noqa
             self.exc.append("%s: %s: %s" % (st, type(e).__name__, e))
+
+    def run_random(self, rnd, max_steps=4000):
+        n = 0
+        while n < max_steps:
+            en = self.enabled()
+            if not en:
+                break
+            self.step(rnd.choice(sorted(en)))
+            n += 1
+        return n
+
+    def outcome(self, rid):
+        """the record Judge_C25 / Replication.tla judges (termination, placement conditions, capacity rule at every acceptance)"""
+        D = self.D
+        dirreps = {}
+        for c in D["comps"]:
+            dirreps[c] = sorted(a for a in D["agents"] if a in (self.rep[a].discovery._replicas_data.get(c) or ()))
+        return {"id": rid, "agents": D["agents"], "comps": D["comps"], "cap": D["cap"], "owner": D["owner"], "fp": D["fp"], "k": D["k"],
+                "done": [a for a in D["agents"] if self.done[a]] if not self.enabled() else [],
+                "hosts": {c: sorted(self.rep[D["owner"][c]]._replica_hosts.get(c, ())) for c in D["comps"]},
+                "held": {a: sorted(self.rep[a]._hosted_replicas) for a in D["agents"]}, "dirReps": dirreps,
+                "accepts": list(self.accepts), "exc": list(self.exc)}
 
     def _msg(self, m):
         return {"kind": "request" if m.rep_msg_type == "replicate_request" else "answer", "budget": AM._num(m.budget), "spent": AM._num(m.spent),
@@ -125,7 +153,7 @@ def _replay(args):
     if max_paths and len(paths) > max_paths:
         random.Random(sd).shuffle(paths)
         paths = paths[:max_paths]
-    nsteps, divs = 0, []
+    nsteps, divs, recs = 0, [], []
     for pi, path in enumerate(paths):
         w = UcsWorld(D)
         for k, (a, exp) in enumerate(path):
@@ -133,16 +161,27 @@ def _replay(args):
             nsteps += 1
             if st not in w.enabled():
                 divs.append("path %d step %d %s: the model's step is not enabled in the code" % (pi, k, json.dumps(a, sort_keys=True)))
+                w.run_random(random.Random(pi), 4000)
+                recs.append((w.outcome(0), [x for x, _ in path[:k]], pi))
                 break
             w.step(st)
             d = RP.first_diff(exp, norm(w.project()))
             if d:
                 divs.append("path %d step %d %s: state differs from Ucs.tla at %s (expected vs real)%s" % (
                     pi, k, json.dumps(a, sort_keys=True), d, (" - handler raised " + w.exc[-1]) if w.exc else ""))
+                # the real objects go on alone to quiescence; what they end in is judged on its own (Replication.tla)
+                w.run_random(random.Random(pi), 4000)
+                recs.append((w.outcome(0), [x for x, _ in path[:k + 1]], pi))
                 break
         if len(divs) >= 8:
             break
-    return len(paths), nsteps, divs, g.nedges
+    # seeded random schedules of the real objects on the same deployment, judged the same way (they also cover the end of the runs,
+    # which the covering paths only reach by their shortest prefixes)
+    for si in range(6):
+        w = UcsWorld(D)
+        w.run_random(random.Random(sd * 100 + si), 4000)
+        recs.append((w.outcome(0), None, sd * 100 + si))
+    return len(paths), nsteps, divs, g.nedges, recs
 
 
 def model_part(v, insts, tier, label="Ucs.tla"):
@@ -153,6 +192,7 @@ def model_part(v, insts, tier, label="Ucs.tla"):
     jobs = [(b, k) for k, b in enumerate(batches)]
     with mp.get_context("fork").Pool(len(jobs)) as pool:
         outs = pool.map(_batch, [(b, 300 if quick else None, k) for b, k in jobs], chunksize=1)
+    allrecs = []
     tot = {"instances": 0, "model_states": 0, "edges": 0, "paths": 0, "steps": 0, "divergences": 0, "invariants": INVS}
     for b, (res_info, reps) in zip(batches, outs):
         res = __import__("vlib.tlc", fromlist=["TlcResult"]).TlcResult()
@@ -162,7 +202,10 @@ def model_part(v, insts, tier, label="Ucs.tla"):
         if res_info["violated"] or res_info["deadlock"]:
             tot.setdefault("model_invariant_violations", []).append({"what": res_info["violated"] or ["Deadlock"], "acts": res_info["acts"], "batch": [json.dumps(x)[:300] for x in b][:1]})
             continue
-        for D, (np_, ns, divs, ne) in zip(b, reps):
+        for D, (np_, ns, divs, ne, recs) in zip(b, reps):
+            for rec, prefix, sd in recs:
+                rec["id"] = len(allrecs)
+                allrecs.append((rec, D, prefix, sd))
             tot["instances"] += 1
             tot["paths"] += np_
             tot["steps"] += ns
@@ -172,6 +215,21 @@ def model_part(v, insts, tier, label="Ucs.tla"):
             for d in divs:
                 tot["divergences"] += 1
                 v.divergence("Ucs %s k=%d: %s" % (D["owner"], D["k"], d))
+    if allrecs:
+        from .judge import judge
+        verdicts, jres = judge("Judge_C25", [r for r, _, _, _ in allrecs], chunk=400)
+        v.add_tlc(jres, "Judge_C25 / Replication.tla on %d executions of the real UCSReplication objects at message level" % len(allrecs))
+        tot["real_message_level_runs_judged"] = len(allrecs)
+        for rec, D, prefix, sd in allrecs:
+            v.cov["evaluations"] += 1
+            v.cov["traces_validated_against_impl"] += 1
+            if rec["accepts"]:
+                v.cov["distinct_nontrivial"] += 1
+            for clause in verdicts[rec["id"]]:
+                v.violation({"clause": clause, "k": rec["k"], "via": "message_level_run"},
+                            "%s (message-level run of real UCSReplication objects, %d agents, k=%d): hosts %s, done %s, %s" % (
+                                clause, len(rec["agents"]), rec["k"], rec["hosts"], rec["done"], rec["exc"][:1]),
+                            {"ucs_instance": D, "model_prefix": prefix, "then_seed": sd, "outcome": rec})
     return tot
 
 
